@@ -10,6 +10,15 @@ live object (the harness never issues such an op; the driver answers `bad-op`).
 
 The theorems of C05 / C10 / C20 quantify over arbitrary `List WOp` histories
 from `World.init`.  Import-free apart from sibling models.
+
+Three further constructors (`lend`, `pushAt`, `pushBorrowedAt`; track `glue`) are
+NOT op words of the line protocol: they split "lend a fresh caller buffer and
+push all of it" (what `push` / `push_borrowed` / `extend` do above) into its two
+halves, so that a push of a SUB-slice of a caller buffer — what the C03/C04
+vocabulary (`Woodpile.Iovec.Op`, `Borrow.pre/post`) and the HCOBS codecs
+(`EncWorld.XOp.pushAt`) do — is a history of this vocabulary too
+(`Proofs/IovecGlue.lean`).  They call the same model functions (`World.push`,
+`World.pushBorrowed`); the theorems over `List WOp` cover them.
 -/
 import Woodpile.Model.Iovec
 
@@ -66,6 +75,12 @@ inductive WOp where
   | sDrop (s : Nat)
   | readNIov (v count attempts : Nat) (src : List UInt8) (script : List ReadN.Ev)
   | readNArena (a count attempts : Nat) (src : List UInt8) (script : List ReadN.Ev)
+  /-- (glue) the caller makes a buffer known to the world without pushing it (no iovec call) -/
+  | lend (bs : List UInt8)
+  /-- (glue) `push` of the sub-slice `[off, off+len)` of the already known caller buffer `b` -/
+  | pushAt (v b off len : Nat)
+  /-- (glue) `push_borrowed` of the sub-slice `[off, off+len)` of the already known caller buffer `b` -/
+  | pushBorrowedAt (v b off len : Nat)
   deriving Repr, DecidableEq
 
 /-- `ByteArena::read_n` on iovec `i`'s own arena; the anchored result becomes a new detached slice. -/
@@ -215,6 +230,12 @@ def World.step (w : World) : WOp → Option World
     | none => none
   | .readNIov i count attempts src script => w.readNIov i count attempts ⟨src, script⟩
   | .readNArena j count attempts src script => w.readNArena j count attempts ⟨src, script⟩
+  | .lend bs => some (w.addExt bs).1
+  -- a borrow of `buf[off .. off+len]` only type-checks in Rust when it is in bounds
+  | .pushAt i b off len =>
+    if off + len ≤ (w.exts.getD b []).length then w.push i ⟨.ext b, off, len⟩ else none
+  | .pushBorrowedAt i b off len =>
+    if off + len ≤ (w.exts.getD b []).length then w.pushBorrowed i ⟨.ext b, off, len⟩ else none
 
 /-- A whole history; `none` as soon as one op panics (or is ill-formed). -/
 def World.run (w : World) : List WOp → Option World
